@@ -47,17 +47,18 @@ import (
 const sdsSecretType = "type.googleapis.com/envoy.extensions.transport_sockets.tls.v3.Secret"
 
 type sdsClient struct {
-	id     int
-	res    string // subset of "wr" currently subscribed ("" after unsub)
-	cancel context.CancelFunc
-	conn   *grpc.ClientConn
-	stream sdsapi.SecretDiscoveryService_StreamSecretsClient
-	sendMu sync.Mutex // a gRPC stream allows one sender at a time (ACKs come from the receiver goroutine)
-	mu     sync.Mutex
-	n      int    // responses received
-	lastW  string // last `default` content
-	lastR  string // last `ROOTCA` content
-	state  string // live | gone (closed by the client) | closed (ended by the server)
+	id                     int
+	res                    string // subset of "wr" currently subscribed ("" after unsub)
+	cancel                 context.CancelFunc
+	conn                   *grpc.ClientConn
+	stream                 sdsapi.SecretDiscoveryService_StreamSecretsClient
+	sendMu                 sync.Mutex // a gRPC stream allows one sender at a time (ACKs come from the receiver goroutine)
+	mu                     sync.Mutex
+	n                      int    // responses received
+	lastW                  string // last `default` content
+	lastR                  string // last `ROOTCA` content
+	state                  string // live | gone (closed by the client) | closed (ended by the server)
+	lastVersion, lastNonce string
 }
 
 func (c *sdsClient) names() []string {
@@ -193,6 +194,7 @@ func (s *sdsSUT) subscribe(id int, res string) error {
 			c.sendMu.Lock()
 			c.mu.Lock()
 			names := c.names()
+			c.lastVersion, c.lastNonce = resp.VersionInfo, resp.Nonce
 			c.mu.Unlock()
 			if len(names) > 0 {
 				_ = stream.Send(&discovery.DiscoveryRequest{TypeUrl: sdsSecretType, ResourceNames: names,
@@ -244,6 +246,11 @@ func (c *sdsClient) wants(announced string) bool {
 // have lost its stream.  Condition based (20 s deadline), then 100 ms for anything unexpected to show up.
 // Returns all callbacks in order.
 func (s *sdsSUT) settle(before map[int]sdsSnap, newID int) string {
+	return s.settleOwed(before, newID, nil)
+}
+
+// settleOwed: `owed` = responses owed to clients for a request of their own (resubscription).
+func (s *sdsSUT) settleOwed(before map[int]sdsSnap, newID int, owed map[int]int) string {
 	all := ""
 	deadline := time.Now().Add(20 * time.Second)
 	quiet := 0
@@ -255,7 +262,7 @@ func (s *sdsSUT) settle(before map[int]sdsSnap, newID int) string {
 		done := true
 		now := s.snap()
 		for id, c := range s.clients {
-			want := 0
+			want := owed[id]
 			if id == newID {
 				want = 1
 			} else if before[id].state != "live" {
@@ -358,6 +365,55 @@ func (s *sdsSUT) op(t []string) string {
 		_ = c.stream.Send(&discovery.DiscoveryRequest{TypeUrl: sdsSecretType, ResourceNames: nil})
 		c.sendMu.Unlock()
 		time.Sleep(30 * time.Millisecond) // let the server process it (requests have priority over pushes)
+	case "resub":
+		// the client changes its resource set on the live stream (ACK-shaped request with other names)
+		if len(t) != 3 || (t[2] != "w" && t[2] != "r" && t[2] != "wr") {
+			return "bad-op"
+		}
+		id, err := strconv.Atoi(t[1])
+		c := s.clients[id]
+		if err != nil || c == nil || c.state != "live" {
+			return "bad-op"
+		}
+		c.sendMu.Lock()
+		c.mu.Lock()
+		old := c.res
+		c.res = t[2]
+		names, ver, nonce := c.names(), c.lastVersion, c.lastNonce
+		c.mu.Unlock()
+		_ = c.stream.Send(&discovery.DiscoveryRequest{TypeUrl: sdsSecretType, ResourceNames: names, VersionInfo: ver, ResponseNonce: nonce})
+		c.sendMu.Unlock()
+		added := false
+		for _, l := range t[2] {
+			if !strings.ContainsRune(old, l) {
+				added = true
+			}
+		}
+		owed := map[int]int{}
+		if old == "" || added {
+			owed[id] = 1 // after an unsubscribe everything is sent; otherwise only what was added; nothing for a removal
+		}
+		time.Sleep(30 * time.Millisecond)
+		return s.show(s.settleOwed(before, newID, owed))
+	case "bundlen":
+		// UpdateConfigTrustBundle without a default subscriber, followed by the harness's own GenerateSecret(default):
+		// whether a pushed ROOTCA subscriber re-requests before or after the cache is emptied is a race of the real
+		// system; with this follow-up both orders end in the same state (generated only while the CA root is unchanged)
+		if len(t) != 2 {
+			return "bad-op"
+		}
+		var b []byte
+		if t[1] != "-" {
+			b = []byte(strings.Join(bundlePEMs(t[1]), ""))
+		}
+		s.updateBundle(b)
+		ev := s.settle(before, newID)
+		_, _ = s.sc.GenerateSecret(security.WorkloadKeyCertResourceName)
+		ev2 := s.settle(s.snap(), -1)
+		if ev2 != "-" {
+			ev += ev2
+		}
+		return s.show(ev)
 	case "drop":
 		if len(t) != 2 {
 			return "bad-op"
@@ -403,7 +459,7 @@ func (s *sdsSUT) op(t []string) string {
 		if t[1] != "-" {
 			b = []byte(strings.Join(bundlePEMs(t[1]), ""))
 		}
-		_ = s.sc.UpdateConfigTrustBundle(b)
+		s.updateBundle(b)
 	case "cafail":
 		if len(t) != 2 {
 			return "bad-op"
@@ -462,6 +518,7 @@ func genSds(seed uint64, n int, path string) {
 		}
 		cfg := "-"
 		failing := false
+		rootDirty := false // the CA's root was changed since the last CA call that certainly happened
 		nops := 3 + r.Intn(9)
 		for k := 0; k < nops; k++ {
 			switch x := r.Intn(20); {
@@ -474,10 +531,17 @@ func genSds(seed uint64, n int, path string) {
 				}
 				live[next] = res
 				next++
-			case x < 9:
+			case x < 8:
 				if id := pick(func(v string) bool { return v != "" }); id >= 0 {
 					out.Line("unsub", strconv.Itoa(id))
 					live[id] = ""
+				}
+			case x < 9:
+				// change the resource set on a live stream / re-subscribe after an unsubscribe
+				if id := pick(func(string) bool { return true }); id >= 0 && !failing {
+					res := wire.Pick(r, []string{"w", "r", "wr"})
+					out.Line("resub", strconv.Itoa(id), res)
+					live[id] = res
 				}
 			case x < 10:
 				if id := pick(func(string) bool { return true }); id >= 0 {
@@ -492,7 +556,16 @@ func genSds(seed uint64, n int, path string) {
 				// whether a ROOTCA subscriber re-requests before or after the cache is emptied is a race of
 				// the real system; with a live default subscriber the outcome is the same either way
 				if nW() == 0 {
-					out.Line("rotate")
+					if rootDirty || failing {
+						out.Line("rotate")
+						break
+					}
+					b := randLetters(r, 1, 2)
+					if b == cfg {
+						b = "-"
+					}
+					cfg = b
+					out.Line("bundlen", b)
 					break
 				}
 				b := randLetters(r, 1, 2)
@@ -503,6 +576,7 @@ func genSds(seed uint64, n int, path string) {
 				out.Line("bundle", b)
 			case x < 18:
 				out.Line("caroot", string(rune('A'+r.Intn(nRoots))))
+				rootDirty = true
 			default:
 				// a failing re-request ends the subscriber's stream; which of several concurrent re-requests
 				// meets the failure is a race, so: exactly one default subscriber
@@ -689,7 +763,7 @@ func oracleSdsCase(lines [][]string, dir string) []string {
 				c.mu.Lock()
 				lastW, lastR, res := c.lastW, c.lastR, c.res
 				c.mu.Unlock()
-				isNew := t[0] == "sub" && strconv.Itoa(id) == t[1]
+				isNew := (t[0] == "sub" || t[0] == "resub") && strconv.Itoa(id) == t[1] // answers to its own request
 				wasLive := before[id].state == "live" || isNew
 				pushed := now[id].n > before[id].n
 				wantW := strings.Contains(res, "w") && (strings.ContainsAny(ev, "Ww") || isNew)
@@ -699,12 +773,14 @@ func oracleSdsCase(lines [][]string, dir string) []string {
 					fail("push-to-closed-stream", t, fmt.Sprint(id))
 				case wasLive && now[id].state == "closed" && failed == 0:
 					fail("stream-ended-by-server", t, fmt.Sprintf("c%d:%s", id, res))
+				case t[0] == "resub" && isNew:
+					// what a changed resource set is answered with is compared with the model, not judged here
 				case wasLive && now[id].state == "live" && (wantW || wantR) && !pushed:
 					fail("subscriber-not-pushed", t, fmt.Sprintf("c%d:%s", id, res))
 				case wasLive && !(wantW || wantR) && pushed && !(t[0] == "drop" && strconv.Itoa(id) == t[1]):
 					fail("unrequested-push", t, fmt.Sprintf("c%d:%s", id, res)) // e.g. after an xDS unsubscribe
 				}
-				if wasLive && now[id].state == "live" && pushed && cur != "none" {
+				if wasLive && now[id].state == "live" && pushed && cur != "none" && !(t[0] == "resub" && isNew) {
 					if wantW && lastW != cur {
 						fail("subscriber-stale-cert", t, fmt.Sprintf("c%d has %s, cached %s", id, lastW, cur))
 					}
